@@ -166,11 +166,32 @@ func checkSetAgainst(set replication.GTIDSet, m gmodel, what string) error {
 	if !ok {
 		return fmt.Errorf("%s is a %T", what, set)
 	}
-	if !bytes.Equal(s56.SIDBlock(), m.block()) {
+	blk := s56.SIDBlock()
+	if !bytes.Equal(blk, m.block()) {
 		return fmt.Errorf("%s: SID block differs from the model's", what)
 	}
+	// blocks handed out earlier must still hold what they held (an encoder that recycles its
+	// buffer would overwrite them)
+	for i := range retainedBlocks {
+		r := &retainedBlocks[i]
+		if r.got != nil && !bytes.Equal(r.got, r.want) {
+			txt := r.text
+			retainedBlocks = [4]retainedBlock{}
+			return fmt.Errorf("the SID block returned earlier for %q changed after another set was serialised", txt)
+		}
+	}
+	retainedBlocks[retainedBlockNext%len(retainedBlocks)] = retainedBlock{got: blk, want: m.block(), text: m.text()}
+	retainedBlockNext++
 	return nil
 }
+
+type retainedBlock struct {
+	got, want []byte
+	text      string
+}
+
+var retainedBlocks [4]retainedBlock
+var retainedBlockNext int
 
 func checkGTIDSeq(c *GTIDSeqCase) error {
 	start := gmodel{}
